@@ -2,6 +2,7 @@
 import ast
 
 from sa.cfg import CFG
+from sa import guards as G
 from sa.common import expand_name, returns_of
 from sa.defuse import DefUse, loc_name
 from sa.model import AnalysisError, AnchorMissing, const_value, src, walk_function
@@ -120,7 +121,7 @@ def d2_d3_weights(ctx):
                       f"`{src(s_)}` selects the support with a positive threshold after normalisation: small positive weights are dropped and the rest sum to < 1",
                       key="support")
     # pre-normalisation threshold must compare raw weights (fine) ; weights are exp(...) >= 0
-    wd = [d for d in du.defs if d.var == "weights" and d.kind == "assign" and isinstance(d.value, ast.Call) and call_name(d.value) == "exp"]
+    wd = [d for d in du.defs if d.var == "weights" and d.kind == "assign" and _is_exp_decay(repo, fi, du, d.value, d.stmt)]
     ctx.check(bool(wd), fi, wd[0].stmt if wd else fi.node, wd[0].stmt if wd else "weights = exp(...)", "raw weights are exp(...) > 0", "raw weights are not an exponential decay (may be negative)",
               key="nonneg")
     # combination uses same support
@@ -138,10 +139,34 @@ def d2_d3_weights(ctx):
     z = [n for n in body if isinstance(n, ast.Assign) and isinstance(n.targets[0], ast.Subscript) and loc_name(n.targets[0].value) == "data" and const_value(n.value) == (True, 0)]
     okz = False
     for n in z:
-        gs = [src(t) for t, pol in cfg.guards(cfg.node_for(n)) if pol]
-        okz = any(".size == 0" in g or "len(" in g for g in gs)
+        # the zero store happens under `support is empty` (any spelling: size == 0, not size > 0, else-branch of size > 0 ..)
+        at_ = G.Atoms()
+        pc = G.path_condition(cfg, cfg.node_for(n), at_)
+        okz = okz or any(G.entails(pc, G.Atom(k)) is True for k in G.atoms_of(pc) if k.endswith(".size == 0") or (k.startswith("len(") and k.endswith("== 0")))
     ctx.check(okz, fi, z[0] if z else lp, z[0] if z else "data[i, :] = 0", "a bad channel without usable neighbours becomes zeros", "the no-neighbour case does not produce zeros (NaN from 0/0 would propagate)",
               key="empty-support")
+
+
+def _is_exp_decay(repo, fi, du, e, at, depth=0):
+    """Does the value come from np.exp(..) - directly, through views / asarray / a local, or as the result of a helper whose every return does?"""
+    from sa.common import view_source
+    if e is None or depth > 5:
+        return False
+    e = view_source(e)
+    if isinstance(e, ast.Call):
+        if call_name(e) == "exp":
+            return True
+        q = repo.resolve_call(fi, e)
+        if q and repo.has_fn(q):
+            f2 = repo.fn(q)
+            du2 = DefUse(f2.node)
+            rets = [r for r in returns_of(f2.node) if r.value is not None]
+            return bool(rets) and all(_is_exp_decay(repo, f2, du2, r.value, r, depth + 1) for r in rets)
+        return False
+    if isinstance(e, ast.Name):
+        ds = [d for d in du.reaching(e.id, at) if d.kind != "mutate"]
+        return bool(ds) and all(d.kind == "assign" and d.unpack_index is None and _is_exp_decay(repo, fi, du, d.value, d.stmt, depth + 1) for d in ds)
+    return False
 
 
 def d4_labels(ctx):
@@ -214,7 +239,14 @@ def d4_labels(ctx):
     ctx.check(okc, fc, st2[0] if st2 else fc.node, st2[0] if st2 else "channel_labels[:, i]", "each batch fills its own column", "batch labels are not stored one column per batch", key="batch-col")
 
 
+def dS_shared(ctx):
+    from sa.common import rule_no_shared_mutation
+    rule_no_shared_mutation(ctx, "DS", ['ibldsp.voltage.interpolate_bad_channels', 'ibldsp.voltage.detect_bad_channels', 'ibldsp.voltage.detect_bad_channels_cbin'],
+                            "the weights zeroed for one recording's bad channels stay zero for the next recording with the same geometry: its replacements are no longer the convex combination of its own good neighbours")
+
+
 def run(ctx):
+    ctx.run(dS_shared)
     ctx.run(d1_rows)
     ctx.run(d2_d3_weights)
     ctx.run(d4_labels)
